@@ -2,6 +2,7 @@
 import ast
 
 from .index import AnalysisError, unparse, walk_no_nested
+from .consteval import _copy_tree as _ct
 
 MUTATORS = {'append', 'add', 'extend', 'update', 'insert', 'pop', 'remove',
             'clear', 'setdefault', 'discard', 'popitem', 'sort', 'reverse',
@@ -248,7 +249,7 @@ class _Inliner(ast.NodeTransformer):
         vals = local_assignments(self.fn, node.id)
         if len(vals) == 1 and vals[0] is not None:
             import copy
-            sub = copy.deepcopy(vals[0])
+            sub = _ct(vals[0])
             return _Inliner(self.fn, self.depth + 1).visit(sub)
         return node
 
@@ -260,5 +261,5 @@ def inline(fn_node, expr):
     import copy
     if expr is None:
         return None
-    e = _Inliner(fn_node).visit(copy.deepcopy(expr))
+    e = _Inliner(fn_node).visit(_ct(expr))
     return unparse(e)
